@@ -33,6 +33,12 @@ GLOBAL_DOC = {"action": "global", "level": "critical", "tags": ["attack.g0001"],
 RULE_DOC = {"title": "Valid rule", "logsource": {"category": "c"}, "detection": {"sel": {"a": 1}, "condition": "sel"}}
 
 
+CORR_DOC = {"title": "Valid correlation", "correlation": {"type": "event_count", "rules": ["base_rule", "11111111-1111-4111-8111-111111111111"],
+                                                          "group-by": ["g"], "timespan": "5m", "condition": {"gte": 2}}}
+FULL_RULE_DOC = {"title": "Base rule", "name": "base_rule", "logsource": {"category": "process_creation", "product": "windows"},
+                 "detection": {"sel": {"fieldA": "a"}, "condition": "sel"}}
+
+
 def _err(e):
     return [type(e).__name__, cps(str(e))[:200]]
 
@@ -75,8 +81,13 @@ def drive_case(case):
         if isinstance(doc, dict) and doc.get("action") == "global":
             doc["action"] = "repeat"
         docs = [RULE_DOC, doc]
-    o["coll_strict"] = _load(lambda: SigmaCollection.from_dicts(copy.deepcopy(docs), resolve_references=False), lambda x: [])
-    o["coll_collect"] = _load(lambda: SigmaCollection.from_dicts(copy.deepcopy(docs), collect_errors=True, resolve_references=False), coll_errors)
+    elif case["kind"] == "rule*+corr":
+        docs = [doc, CORR_DOC]
+    elif case["kind"] == "rule+filter*":
+        docs = [FULL_RULE_DOC, doc]
+    resolve = case["kind"] in ("rule*+corr", "rule+filter*")
+    o["coll_strict"] = _load(lambda: SigmaCollection.from_dicts(copy.deepcopy(docs), resolve_references=resolve), lambda x: [])
+    o["coll_collect"] = _load(lambda: SigmaCollection.from_dicts(copy.deepcopy(docs), collect_errors=True, resolve_references=resolve), coll_errors)
     if case["kind"] in ("rule", "corr", "filter"):
         cls = {"rule": SigmaRule, "corr": SigmaCorrelationRule, "filter": SigmaFilter}[case["kind"]]
         o["direct_strict"] = _load(lambda: cls.from_dict(copy.deepcopy(doc)), lambda x: [])
